@@ -131,7 +131,7 @@ def run_real_spec(spec):
     SpikeGenerator._generate_homogeneous_poisson_spikes = classmethod(p)
     SpikeGenerator._generate_regular_spikes = classmethod(rg)
     random.random = rec_rand
-    orders = [list(set(st["variables"])) for st in spec["stimuli"]]     # same construction -> same iteration order
+    orders = [list(dict.fromkeys(st["variables"])) for st in spec["stimuli"]]     # distinct targets in the order given (the documented, hash-seed independent order)
     try:
         random.seed(spec.get("seed", 1))
         res = SpikeGenerator.spike_times_from_json(json.loads(json.dumps(spec["stimuli"])), spec["sim_time"])
